@@ -190,34 +190,42 @@ Section RemovalFacts.
 Variable excl_name : name -> bool.
 Variable excl_path : path -> bool.
 
-Notation remove' := (remove excl_name excl_path true).
-Notation clean_dir_with' := (clean_dir_with excl_name).
-Notation fold_rm' := (fold_rm).
+(* the only entries a removal of p (exclusion tested on [tested]) may touch: p itself unless [tested] is excluded, and
+   the entries below p that are reached through listed (not excluded) names and whose own name is not excluded *)
+Definition touchable (p tested q : path) : Prop :=
+  (q = p /\ excl_path tested = false) \/
+  (exists r, r <> [] /\ q = p ++ r /\ Forall (fun n => excl_name n = false) r /\ excl_path [last r []] = false).
 
-(* the only entries a removal of p may touch: those at or below p that are not excluded *)
-Definition touchable (p q : path) : Prop := under p q /\ excl_path q = false.
+Lemma touchable_under : forall p t q, touchable p t q -> under p q.
+Proof. intros p t q [[-> _]|[r [_ [-> _]]]]; [apply under_refl | now exists r]. Qed.
 
-Lemma touchable_child : forall p n q, touchable (p ++ [n]) q -> touchable p q.
-Proof. intros p n q [Hu He]. split; [eapply under_app; eauto | exact He]. Qed.
-
-Lemma touchable_under : forall p q, touchable p q -> under p q.
-Proof. now intros p q [H _]. Qed.
-
-Definition rm_spec (rm : fsys -> path -> fsys * res) : Prop :=
-  forall s p, dirs_above s p -> changes_only (touchable p) s (fst (rm s p)).
-
-Lemma fold_rm_changes_only : forall cancelled rm p, rm_spec rm ->
-  forall ns s, dirs_above s p -> lookup s p = Some EDir -> changes_only (touchable p) s (fst (fold_rm' cancelled rm s p ns)).
+Lemma touchable_child : forall p t n q, excl_name n = false -> touchable (p ++ [n]) [n] q -> touchable p t q.
 Proof.
-  intros cancelled rm p Hrm. induction ns as [|n r IH]; intros s Hd Hl; simpl; [apply changes_only_refl|].
+  intros p t n q Hn [[-> He]|[r [Hr [-> [Hf He]]]]]; right.
+  - exists [n]. repeat split; [discriminate | now constructor | exact He].
+  - exists (n :: r). repeat split; [discriminate | now rewrite <- app_assoc | now constructor |].
+    destruct r; [congruence | exact He].
+Qed.
+
+Definition rm_spec (rm : fsys -> path -> path -> fsys * res) : Prop :=
+  forall s p t, dirs_above s p -> changes_only (touchable p t) s (fst (rm s p t)).
+
+Definition listed (ns : list name) : Prop := Forall (fun n => excl_name n = false) ns.
+
+Lemma fold_rm_changes_only : forall cancelled rm p t, rm_spec rm ->
+  forall ns s, listed ns -> dirs_above s p -> lookup s p = Some EDir ->
+  changes_only (touchable p t) s (fst (fold_rm cancelled rm s p ns)).
+Proof.
+  intros cancelled rm p t Hrm. induction ns as [|n r IH]; intros s Hls Hd Hl; simpl; [apply changes_only_refl|].
   destruct cancelled; [apply changes_only_refl|].
-  pose proof (Hrm s (p ++ [n]) (dirs_above_child s p n Hd Hl)) as H1.
-  destruct (rm s (p ++ [n])) as [s1 r1] eqn:E. simpl in H1.
-  assert (H1' : changes_only (touchable p) s s1) by (eapply changes_only_weaken; [apply touchable_child | exact H1]).
+  inversion Hls as [|? ? Hn Hls']; subst.
+  pose proof (Hrm s (p ++ [n]) [n] (dirs_above_child s p n Hd Hl)) as H1.
+  destruct (rm s (p ++ [n]) [n]) as [s1 r1] eqn:E. simpl in H1.
+  assert (H1' : changes_only (touchable p t) s s1) by (eapply changes_only_weaken; [intros q Hq; exact (touchable_child p t n q Hn Hq) | exact H1]).
   destruct r1; [|exact H1'].
-  eapply changes_only_trans; [exact H1'|]. apply IH.
+  eapply changes_only_trans; [exact H1'|]. apply IH; [exact Hls'| |].
   - eapply dirs_above_preserved; [apply touchable_under | exact H1' | exact Hd].
-  - rewrite H1; [exact Hl|]. intros [Hu _]. revert Hu. apply strict_prefix_not_under. discriminate.
+  - rewrite H1; [exact Hl|]. intros Ht. apply touchable_under in Ht. revert Ht. apply strict_prefix_not_under. discriminate.
 Qed.
 
 Lemma ls_some_dir : forall s p ns, dirs_above s p -> not_link (lookup s p) -> ls excl_name s p = Some ns -> lookup s p = Some EDir.
@@ -226,32 +234,39 @@ Proof.
   destruct (lookup s p) as [[cid| |t]|]; try discriminate. reflexivity.
 Qed.
 
-Lemma clean_dir_with_changes_only : forall cancelled rm, rm_spec rm ->
-  forall s p, dirs_above s p -> not_link (lookup s p) -> changes_only (touchable p) s (fst (clean_dir_with' cancelled rm s p)).
+Lemma ls_listed : forall s p ns, ls excl_name s p = Some ns -> listed ns.
 Proof.
-  intros cancelled rm Hrm s p Hd Hn. unfold clean_dir_with.
+  intros s p ns H. unfold ls in H. destruct (is_dir s p) as [[|]|]; try discriminate.
+  destruct (readdir s p) as [l|]; [|discriminate]. inversion H; subst. apply Forall_forall. intros n Hin.
+  apply filter_In in Hin as [_ Hn]. now apply negb_true_iff in Hn.
+Qed.
+
+Lemma clean_dir_with_changes_only : forall cancelled rm t, rm_spec rm ->
+  forall s p, dirs_above s p -> not_link (lookup s p) -> changes_only (touchable p t) s (fst (clean_dir_with excl_name cancelled rm s p)).
+Proof.
+  intros cancelled rm t Hrm s p Hd Hn. unfold clean_dir_with.
   destruct cancelled; [apply changes_only_refl|].
   destruct (negb (exists_ s p)); [apply changes_only_refl|].
   destruct (is_empty s p); [apply changes_only_refl|].
   destruct (ls excl_name s p) as [ns|] eqn:E; [|apply changes_only_refl].
-  apply fold_rm_changes_only; auto. eapply ls_some_dir; eauto.
+  apply fold_rm_changes_only; auto; [eapply ls_listed; eauto | eapply ls_some_dir; eauto].
 Qed.
 
-Lemma remove_changes_only : forall cancelled fuel, rm_spec (remove' cancelled fuel).
+Lemma remove_changes_only : forall cancelled fuel, rm_spec (remove excl_name excl_path true cancelled fuel).
 Proof.
-  intros cancelled. induction fuel as [|f IH]; intros s p Hd; simpl; [apply changes_only_refl|].
+  intros cancelled. induction fuel as [|f IH]; intros s p t Hd; simpl; [apply changes_only_refl|].
   rewrite lstat_phys by assumption.
-  assert (Hos : forall s1, dirs_above s1 p -> excl_path p = false -> changes_only (touchable p) s1 (fst (os_remove s1 p))).
+  assert (Hos : forall s1, dirs_above s1 p -> excl_path t = false -> changes_only (touchable p t) s1 (fst (os_remove s1 p))).
   { intros s1 Hd1 He. eapply changes_only_weaken; [|apply os_remove_changes_only; exact Hd1].
-    intros q ->. split; [apply under_refl | exact He]. }
+    intros q ->. left. now split. }
   destruct (is_link (lookup s p)) eqn:El.
   - destruct cancelled; [apply changes_only_refl|].
-    destruct (excl_path p) eqn:Ee; [apply changes_only_refl | now apply Hos].
-  - assert (Hn : not_link (lookup s p)) by (intros t Ht; rewrite Ht in El; discriminate).
+    destruct (excl_path t) eqn:Ee; [apply changes_only_refl | now apply Hos].
+  - assert (Hn : not_link (lookup s p)) by (intros t0 Ht; rewrite Ht in El; discriminate).
     destruct (negb (exists_ s p)); [apply changes_only_refl|].
     destruct (is_dir s p) as [isDir|]; [|apply changes_only_refl].
-    set (c := if isDir && negb (is_empty s p) then clean_dir_with' cancelled (remove' cancelled f) s p else (s, Ok)).
-    assert (Hc : changes_only (touchable p) s (fst c)).
+    set (c := if isDir && negb (is_empty s p) then clean_dir_with excl_name cancelled (remove excl_name excl_path true cancelled f) s p else (s, Ok)).
+    assert (Hc : changes_only (touchable p t) s (fst c)).
     { unfold c. destruct (isDir && negb (is_empty s p)); [|apply changes_only_refl].
       now apply clean_dir_with_changes_only. }
     destruct c as [s1 r1]. simpl in Hc.
@@ -259,7 +274,7 @@ Proof.
     assert (Hd1 : dirs_above s1 p) by (eapply dirs_above_preserved; [apply touchable_under | exact Hc | exact Hd]).
     destruct (isDir && negb (is_empty s1 p)); [exact Hc|].
     destruct cancelled; [exact Hc|].
-    destruct (excl_path p) eqn:Ee; [exact Hc|].
+    destruct (excl_path t) eqn:Ee; [exact Hc|].
     eapply changes_only_trans; [exact Hc | now apply Hos].
 Qed.
 
@@ -270,8 +285,8 @@ End RemovalFacts.
 Lemma remove0_changes_only : forall cancelled fuel s p, dirs_above s p ->
   changes_only (under p) s (fst (remove0 true cancelled fuel s p)).
 Proof.
-  intros c fuel s p Hd. eapply changes_only_weaken; [|apply (remove_changes_only (fun _ => false) (fun _ => false) c fuel s p Hd)].
-  intros q Hq. exact (touchable_under _ _ _ Hq).
+  intros c fuel s p Hd. eapply changes_only_weaken; [|apply (remove_changes_only (fun _ => false) (fun _ => false) c fuel s p p Hd)].
+  intros q Hq. exact (touchable_under _ _ _ _ _ Hq).
 Qed.
 
 Lemma gc_file_changes_only : forall cancelled old fuel s p, dirs_above s p ->
@@ -285,23 +300,33 @@ Qed.
 Definition gc_spec (g : fsys -> path -> fsys * res) : Prop :=
   forall s p, dirs_above s p -> changes_only (under p) s (fst (g s p)).
 
-Lemma gc_fold_changes_only : forall g p, gc_spec g ->
-  forall ns s, dirs_above s p -> lookup s p = Some EDir ->
-  changes_only (under p) s (fold_left (fun acc n => fst (g acc (p ++ [n]))) ns s).
+(* one child of the directory being collected *)
+Lemma gc_child_step : forall g s p n, gc_spec g -> dirs_above s p -> lookup s p = Some EDir ->
+  changes_only (under p) s (fst (g s (p ++ [n]))) /\ dirs_above (fst (g s (p ++ [n]))) p /\ lookup (fst (g s (p ++ [n]))) p = Some EDir.
 Proof.
-  intros g p Hg. induction ns as [|n r IH]; intros s Hd Hl; simpl; [apply changes_only_refl|].
+  intros g s p n Hg Hd Hl.
   pose proof (Hg s (p ++ [n]) (dirs_above_child s p n Hd Hl)) as H1.
-  set (s1 := fst (g s (p ++ [n]))) in *.
-  assert (H1' : changes_only (under p) s s1) by (eapply changes_only_weaken; [intros q Hq; eapply under_app; exact Hq | exact H1]).
-  eapply changes_only_trans; [exact H1'|]. apply IH.
+  assert (H1' : changes_only (under p) s (fst (g s (p ++ [n])))) by (eapply changes_only_weaken; [intros q Hq; eapply under_app; exact Hq | exact H1]).
+  split; [exact H1'|]. split.
   - eapply dirs_above_preserved; [intros q Hq; exact Hq | exact H1' | exact Hd].
   - rewrite H1; [exact Hl|]. apply strict_prefix_not_under. discriminate.
 Qed.
 
-Lemma gc_changes_only : forall cancelled old fuel s p dp, dirs_above s p -> (dp = false -> not_link (lookup s p)) ->
-  changes_only (under p) s (fst (gc true cancelled old fuel s p dp)).
+Lemma gc_children_changes_only : forall g p, gc_spec g ->
+  forall ns s, dirs_above s p -> lookup s p = Some EDir ->
+  changes_only (under p) s (fst (gc_children g s p ns)).
 Proof.
-  intros c old. induction fuel as [|f IH]; intros s p dp Hd Hroot; simpl; [apply changes_only_refl|].
+  intros g p Hg. induction ns as [|n r IH]; intros s Hd Hl; simpl; [apply changes_only_refl|].
+  destruct (gc_child_step g s p n Hg Hd Hl) as [H1 [Hd1 Hl1]].
+  destruct (g s (p ++ [n])) as [s1 r1]. simpl in *.
+  assert (Hk : changes_only (under p) s (fst (gc_children g s1 p r))) by (eapply changes_only_trans; [exact H1 | now apply IH]).
+  destruct r1 as [|[]]; try exact Hk. exact H1.
+Qed.
+
+Lemma gc_changes_only : forall cancelled old ord fuel s p dp, dirs_above s p -> (dp = false -> not_link (lookup s p)) ->
+  changes_only (under p) s (fst (gc true cancelled old ord fuel s p dp)).
+Proof.
+  intros c old ord. induction fuel as [|f IH]; intros s p dp Hd Hroot; simpl; [apply changes_only_refl|].
   destruct c; [apply changes_only_refl|].
   destruct (negb (exists_ s p)); [apply changes_only_refl|].
   rewrite lstat_phys by assumption.
@@ -311,10 +336,10 @@ Proof.
   destruct (is_dir s p) as [[|]|] eqn:Ed; try now apply gc_file_changes_only.
   destruct (ls (fun _ => false) s p) as [ns|] eqn:E; [|apply changes_only_refl].
   assert (Hl : lookup s p = Some EDir) by (eapply ls_some_dir; eauto).
-  assert (Hf : changes_only (under p) s (fold_left (fun acc n => fst (gc true false old f acc (p ++ [n]) true)) ns s)).
-  { apply (gc_fold_changes_only (fun a q => gc true false old f a q true)); auto.
-    intros s0 p0 Hd0. apply IH; [exact Hd0 | discriminate]. }
-  set (s1 := fold_left _ ns s) in *.
+  assert (Hf : changes_only (under p) s (fst (gc_children (fun a q => gc true false old ord f a q true) s p (ord p ns)))).
+  { apply gc_children_changes_only; auto. intros s0 p0 Hd0. apply IH; [exact Hd0 | discriminate]. }
+  destruct (gc_children (fun a q => gc true false old ord f a q true) s p (ord p ns)) as [s1 b]. simpl in Hf.
+  destruct b; [exact Hf|].
   destruct (is_empty s1 p && dp); [|exact Hf].
   eapply changes_only_trans; [exact Hf|]. apply remove0_changes_only.
   eapply dirs_above_preserved; [intros q Hq; exact Hq | exact Hf | exact Hd].
@@ -448,32 +473,32 @@ Section WfFacts.
 Variable excl_name : name -> bool.
 Variable excl_path : path -> bool.
 
-Definition wf_spec (rm : fsys -> path -> fsys * res) : Prop :=
-  forall s p, wf s -> dirs_above s p -> wf (fst (rm s p)).
+Definition wf_spec (rm : fsys -> path -> path -> fsys * res) : Prop :=
+  forall s p t, wf s -> dirs_above s p -> wf (fst (rm s p t)).
 
 (* one step of the loop keeps the directory being cleaned in place *)
-Lemma child_step : forall rm s p n, rm_spec excl_path rm -> dirs_above s p -> lookup s p = Some EDir ->
-  dirs_above (fst (rm s (p ++ [n]))) p /\ lookup (fst (rm s (p ++ [n]))) p = Some EDir /\
-  changes_only (touchable excl_path (p ++ [n])) s (fst (rm s (p ++ [n]))).
+Lemma child_step : forall rm s p n, rm_spec excl_name excl_path rm -> dirs_above s p -> lookup s p = Some EDir ->
+  dirs_above (fst (rm s (p ++ [n]) [n])) p /\ lookup (fst (rm s (p ++ [n]) [n])) p = Some EDir /\
+  changes_only (touchable excl_name excl_path (p ++ [n]) [n]) s (fst (rm s (p ++ [n]) [n])).
 Proof.
   intros rm s p n Hrm Hd Hl.
-  pose proof (Hrm s (p ++ [n]) (dirs_above_child s p n Hd Hl)) as H1.
+  pose proof (Hrm s (p ++ [n]) [n] (dirs_above_child s p n Hd Hl)) as H1.
   split; [|split; [|exact H1]].
   - eapply dirs_above_preserved; [|exact H1|exact Hd]. intros q Hq. eapply under_app. eapply touchable_under. exact Hq.
-  - rewrite H1; [exact Hl|]. intros [Hu _]. revert Hu. apply strict_prefix_not_under. discriminate.
+  - rewrite H1; [exact Hl|]. intros Ht. apply touchable_under in Ht. revert Ht. apply strict_prefix_not_under. discriminate.
 Qed.
 
-Lemma fold_rm_wf : forall c rm p, rm_spec excl_path rm -> wf_spec rm ->
+Lemma fold_rm_wf : forall c rm p, rm_spec excl_name excl_path rm -> wf_spec rm ->
   forall ns s, wf s -> dirs_above s p -> lookup s p = Some EDir -> wf (fst (fold_rm c rm s p ns)).
 Proof.
   intros c rm p Hrm Hw. induction ns as [|n r IH]; intros s Hwf Hd Hl; simpl; [exact Hwf|].
   destruct c; [exact Hwf|].
   destruct (child_step rm s p n Hrm Hd Hl) as [Hd1 [Hl1 _]].
-  pose proof (Hw s (p ++ [n]) Hwf (dirs_above_child s p n Hd Hl)) as Hwf1.
-  destruct (rm s (p ++ [n])) as [s1 r1]. simpl in *. destruct r1; [now apply IH | exact Hwf1].
+  pose proof (Hw s (p ++ [n]) [n] Hwf (dirs_above_child s p n Hd Hl)) as Hwf1.
+  destruct (rm s (p ++ [n]) [n]) as [s1 r1]. simpl in *. destruct r1; [now apply IH | exact Hwf1].
 Qed.
 
-Lemma clean_dir_with_wf : forall c rm, rm_spec excl_path rm -> wf_spec rm ->
+Lemma clean_dir_with_wf : forall c rm, rm_spec excl_name excl_path rm -> wf_spec rm ->
   forall s p, wf s -> dirs_above s p -> not_link (lookup s p) -> wf (fst (clean_dir_with excl_name c rm s p)).
 Proof.
   intros c rm Hrm Hw s p Hwf Hd Hn. unfold clean_dir_with.
@@ -486,15 +511,15 @@ Qed.
 
 Lemma remove_wf : forall c fuel, wf_spec (remove excl_name excl_path true c fuel).
 Proof.
-  intros c. induction fuel as [|f IH]; intros s p Hwf Hd; simpl; [exact Hwf|].
+  intros c. induction fuel as [|f IH]; intros s p t Hwf Hd; simpl; [exact Hwf|].
   rewrite lstat_phys by assumption.
   destruct (is_link (lookup s p)) eqn:El.
-  - destruct c; [exact Hwf|]. destruct (excl_path p); [exact Hwf | now apply os_remove_wf].
-  - assert (Hn : not_link (lookup s p)) by (intros t Ht; rewrite Ht in El; discriminate).
+  - destruct c; [exact Hwf|]. destruct (excl_path t); [exact Hwf | now apply os_remove_wf].
+  - assert (Hn : not_link (lookup s p)) by (intros t0 Ht; rewrite Ht in El; discriminate).
     destruct (negb (exists_ s p)); [exact Hwf|].
     destruct (is_dir s p) as [isDir|]; [|exact Hwf].
     set (x := if isDir && negb (is_empty s p) then clean_dir_with excl_name c (remove excl_name excl_path true c f) s p else (s, Ok)).
-    assert (Hx : wf (fst x) /\ changes_only (touchable excl_path p) s (fst x)).
+    assert (Hx : wf (fst x) /\ changes_only (touchable excl_name excl_path p t) s (fst x)).
     { unfold x. destruct (isDir && negb (is_empty s p)); [|split; [exact Hwf | apply changes_only_refl]].
       split; [apply clean_dir_with_wf; auto; apply remove_changes_only | apply clean_dir_with_changes_only; auto; apply remove_changes_only]. }
     destruct x as [s1 r1]. simpl in Hx. destruct Hx as [Hwf1 Hc].
@@ -502,7 +527,7 @@ Proof.
     assert (Hd1 : dirs_above s1 p) by (eapply dirs_above_preserved; [apply touchable_under | exact Hc | exact Hd]).
     destruct (isDir && negb (is_empty s1 p)); [exact Hwf1|].
     destruct c; [exact Hwf1|].
-    destruct (excl_path p); [exact Hwf1 | now apply os_remove_wf].
+    destruct (excl_path t); [exact Hwf1 | now apply os_remove_wf].
 Qed.
 
 End WfFacts.
@@ -530,13 +555,13 @@ Variable excl_path : path -> bool.
 Hypothesis Hen : forall n, excl_name n = false.
 Hypothesis Hep : forall q, excl_path q = false.
 
-Definition complete_spec (rm : fsys -> path -> fsys * res) : Prop :=
-  forall s p, wf s -> dirs_above s p -> snd (rm s p) = Ok -> gone_below (fst (rm s p)) p.
+Definition complete_spec (rm : fsys -> path -> path -> fsys * res) : Prop :=
+  forall s p t, wf s -> dirs_above s p -> snd (rm s p t) = Ok -> gone_below (fst (rm s p t)) p.
 
 Lemma filter_none : forall ns : list name, filter (fun n => negb (excl_name n)) ns = ns.
 Proof. induction ns as [|n r IH]; simpl; [reflexivity|]. now rewrite Hen, IH. Qed.
 
-Lemma fold_rm_complete : forall c rm p, rm_spec excl_path rm -> wf_spec rm -> complete_spec rm ->
+Lemma fold_rm_complete : forall c rm p, rm_spec excl_name excl_path rm -> wf_spec rm -> complete_spec rm ->
   forall ns s, wf s -> dirs_above s p -> lookup s p = Some EDir ->
   (forall n, lookup s (p ++ [n]) <> None -> In n ns) ->
   snd (fold_rm c rm s p ns) = Ok ->
@@ -545,21 +570,21 @@ Proof.
   intros c rm p Hrm Hw Hc. induction ns as [|n r IH]; intros s Hwf Hd Hl Hall Hok m; simpl in *.
   - destruct (lookup s (p ++ [m])) eqn:E; [|reflexivity]. exfalso. apply (Hall m). congruence.
   - destruct c; [discriminate|].
-    destruct (child_step excl_path rm s p n Hrm Hd Hl) as [Hd1 [Hl1 Hch]].
-    pose proof (Hw s (p ++ [n]) Hwf (dirs_above_child s p n Hd Hl)) as Hwf1.
-    pose proof (Hc s (p ++ [n]) Hwf (dirs_above_child s p n Hd Hl)) as Hgone.
-    destruct (rm s (p ++ [n])) as [s1 r1]. simpl in *.
+    destruct (child_step excl_name excl_path rm s p n Hrm Hd Hl) as [Hd1 [Hl1 Hch]].
+    pose proof (Hw s (p ++ [n]) [n] Hwf (dirs_above_child s p n Hd Hl)) as Hwf1.
+    pose proof (Hc s (p ++ [n]) [n] Hwf (dirs_above_child s p n Hd Hl)) as Hgone.
+    destruct (rm s (p ++ [n]) [n]) as [s1 r1]. simpl in *.
     destruct r1; [|discriminate].
     apply IH; auto.
     intros k Hk. destruct (name_eq_dec k n) as [->|Hne].
     + exfalso. apply Hk. apply Hgone; [reflexivity | apply under_refl].
     + rewrite Hch in Hk.
       * destruct (Hall k Hk) as [->|Hin]; [congruence | exact Hin].
-      * intros [Hu _]. revert Hu. now apply sibling_not_under.
+      * intros Ht. apply touchable_under in Ht. revert Ht. now apply sibling_not_under.
 Qed.
 
 (* a successful CleanDir of a real directory leaves it in place and empty *)
-Lemma clean_dir_with_complete : forall c rm, rm_spec excl_path rm -> wf_spec rm -> complete_spec rm ->
+Lemma clean_dir_with_complete : forall c rm, rm_spec excl_name excl_path rm -> wf_spec rm -> complete_spec rm ->
   forall s p, wf s -> dirs_above s p -> lookup s p = Some EDir ->
   snd (clean_dir_with excl_name c rm s p) = Ok ->
   children (fst (clean_dir_with excl_name c rm s p)) p = [].
@@ -575,16 +600,16 @@ Proof.
   intros k Hk. now apply children_spec.
 Qed.
 
-Lemma fold_rm_keeps_root : forall c rm p, rm_spec excl_path rm ->
+Lemma fold_rm_keeps_root : forall c rm p, rm_spec excl_name excl_path rm ->
   forall ns s, dirs_above s p -> lookup s p = Some EDir -> lookup (fst (fold_rm c rm s p ns)) p = Some EDir.
 Proof.
   intros c rm p Hrm. induction ns as [|n r IH]; intros s Hd Hl; simpl; [exact Hl|].
   destruct c; [exact Hl|].
-  destruct (child_step excl_path rm s p n Hrm Hd Hl) as [Hd1 [Hl1 _]].
-  destruct (rm s (p ++ [n])) as [s1 r1]. simpl in *. destruct r1; [now apply IH | exact Hl1].
+  destruct (child_step excl_name excl_path rm s p n Hrm Hd Hl) as [Hd1 [Hl1 _]].
+  destruct (rm s (p ++ [n]) [n]) as [s1 r1]. simpl in *. destruct r1; [now apply IH | exact Hl1].
 Qed.
 
-Lemma clean_dir_with_keeps_root : forall c rm, rm_spec excl_path rm ->
+Lemma clean_dir_with_keeps_root : forall c rm, rm_spec excl_name excl_path rm ->
   forall s p, dirs_above s p -> lookup s p = Some EDir -> lookup (fst (clean_dir_with excl_name c rm s p)) p = Some EDir.
 Proof.
   intros c rm Hrm s p Hd Hl. unfold clean_dir_with.
@@ -597,14 +622,14 @@ Qed.
 
 Lemma remove_complete_l : forall c fuel, complete_spec (remove excl_name excl_path true c fuel).
 Proof.
-  intros c. induction fuel as [|f IH]; intros s p Hwf Hd; [discriminate|].
-  remember (remove excl_name excl_path true c (S f) s p) as R eqn:HR. simpl in HR.
+  intros c. induction fuel as [|f IH]; intros s p t Hwf Hd; [discriminate|].
+  remember (remove excl_name excl_path true c (S f) s p t) as R eqn:HR. simpl in HR.
   rewrite lstat_phys in HR by assumption.
   destruct (is_link (lookup s p)) eqn:El.
   - simpl in HR. destruct c; [subst R; discriminate|]. rewrite Hep in HR. subst R. now apply os_remove_complete.
-  - assert (Hn : not_link (lookup s p)) by (intros t Ht; rewrite Ht in El; discriminate).
+  - assert (Hn : not_link (lookup s p)) by (intros t0 Ht; rewrite Ht in El; discriminate).
     simpl in HR. unfold exists_, is_dir in HR. rewrite stat_phys in HR by assumption.
-    destruct (lookup s p) as [[cid| |t]|] eqn:Elk.
+    destruct (lookup s p) as [[cid| |t0]|] eqn:Elk.
     + (* a regular file *)
       simpl in HR. destruct c; [subst R; discriminate|]. rewrite Hep in HR. subst R. now apply os_remove_complete.
     + (* a real directory *)
@@ -615,7 +640,7 @@ Proof.
       destruct (negb (is_empty s p)) eqn:Eemp.
       * pose proof (clean_dir_with_complete c _ Hrm Hw IH s p Hwf Hd Elk) as Hcc.
         pose proof (clean_dir_with_wf excl_name excl_path c _ Hrm Hw s p Hwf Hd Hn') as Hwf1.
-        pose proof (clean_dir_with_changes_only excl_name excl_path c _ Hrm s p Hd Hn') as Hch.
+        pose proof (clean_dir_with_changes_only excl_name excl_path c _ t Hrm s p Hd Hn') as Hch.
         pose proof (clean_dir_with_keeps_root c _ Hrm s p Hd Elk) as Hl1.
         destruct (clean_dir_with excl_name c (remove excl_name excl_path true c f) s p) as [s1 r1]. simpl in *.
         destruct r1; [|subst R; discriminate].
@@ -624,58 +649,422 @@ Proof.
         destruct c; [subst R; discriminate|]. rewrite Hep in HR. subst R. now apply os_remove_complete.
       * rewrite Eemp in HR. simpl in HR.
         destruct c; [subst R; discriminate|]. rewrite Hep in HR. subst R. now apply os_remove_complete.
-    + exfalso. now apply (Hn t).
+    + exfalso. now apply (Hn t0).
     + simpl in HR. subst R. simpl. intros _. now apply wf_missing_gone.
 Qed.
 
 End Complete.
 
+(* ---------- fuel: with Lstat first the recursion only descends into real directories ---------- *)
+
+Lemma is_prefix_spec : forall p q, is_prefix p q = true <-> under p q.
+Proof.
+  induction p as [|a p IH]; intros q; simpl.
+  - split; [intros _; now exists q | reflexivity].
+  - destruct q as [|b q]; [split; [discriminate | intros [r H]; discriminate]|].
+    rewrite andb_true_iff, name_eqb_eq, IH. split.
+    + intros [-> [r ->]]. now exists r.
+    + intros [r H]. inversion H; subst. split; [reflexivity | now exists r].
+Qed.
+
+Lemma filter_le : forall (A : Type) (f g : A -> bool) l, (forall x, f x = true -> g x = true) ->
+  length (filter f l) <= length (filter g l).
+Proof.
+  intros A f g l H. induction l as [|x r IH]; simpl; [lia|].
+  destruct (f x) eqn:Ef; [rewrite (H x Ef); simpl; lia | destruct (g x); simpl; lia].
+Qed.
+
+Lemma filter_lt : forall (A : Type) (f g : A -> bool) l, (forall x, f x = true -> g x = true) ->
+  (exists x, In x l /\ g x = true /\ f x = false) -> length (filter f l) < length (filter g l).
+Proof.
+  intros A f g l H [x [Hin [Hg Hf]]]. induction l as [|y r IH]; [destruct Hin|]. simpl.
+  destruct Hin as [->|Hin].
+  - rewrite Hf, Hg. simpl. pose proof (filter_le A f g r H). lia.
+  - specialize (IH Hin). destruct (f y) eqn:Ef; [rewrite (H y Ef); simpl; lia | destruct (g y); simpl; lia].
+Qed.
+
+Lemma filter_filter_le : forall (A : Type) (f g : A -> bool) l, length (filter f (filter g l)) <= length (filter f l).
+Proof.
+  intros A f g l. induction l as [|x r IH]; simpl; [lia|].
+  destruct (g x); simpl; destruct (f x); simpl; lia.
+Qed.
+
+Lemma size_child_lt : forall s p n, lookup s p <> None -> size_below s (p ++ [n]) < size_below s p.
+Proof.
+  intros s p n Hl. unfold size_below. apply filter_lt.
+  - intros [k e] H. simpl in *. apply is_prefix_spec. apply is_prefix_spec in H. eapply under_app; eauto.
+  - apply lookup_in in Hl as [e Hin]. exists (p, e). split; [exact Hin|]. simpl. split.
+    + apply is_prefix_spec. apply under_refl.
+    + destruct (is_prefix (p ++ [n]) p) eqn:E; [|reflexivity]. apply is_prefix_spec in E.
+      exfalso. revert E. apply strict_prefix_not_under. discriminate.
+Qed.
+
+(* entries only ever disappear *)
+Definition shrinks (s s' : fsys) : Prop := forall x, size_below s' x <= size_below s x.
+
+Lemma shrinks_refl : forall s, shrinks s s.
+Proof. intros s x. lia. Qed.
+
+Lemma shrinks_trans : forall a b c, shrinks a b -> shrinks b c -> shrinks a c.
+Proof. intros a b c H1 H2 x. specialize (H1 x). specialize (H2 x). lia. Qed.
+
+Lemma rm_key_shrinks : forall q s, shrinks s (rm_key q s).
+Proof. intros q s x. unfold size_below, rm_key. apply filter_filter_le. Qed.
+
+Lemma os_remove_shrinks : forall s p, shrinks s (fst (os_remove s p)).
+Proof.
+  intros s p. unfold os_remove. destruct (resolve link_fuel s false p) as [q|]; [|apply shrinks_refl].
+  destruct (lookup s q) as [[cid| |t]|]; simpl; try apply shrinks_refl; try apply rm_key_shrinks.
+  destruct (children s q); simpl; [apply rm_key_shrinks | apply shrinks_refl].
+Qed.
+
+Section Fuel.
+Variable excl_name : name -> bool.
+Variable excl_path : path -> bool.
+
+Definition shrink_spec (rm : fsys -> path -> path -> fsys * res) : Prop := forall s p t, shrinks s (fst (rm s p t)).
+
+Lemma fold_rm_shrinks : forall c rm p, shrink_spec rm -> forall ns s, shrinks s (fst (fold_rm c rm s p ns)).
+Proof.
+  intros c rm p Hs. induction ns as [|n r IH]; intros s; simpl; [apply shrinks_refl|].
+  destruct c; [apply shrinks_refl|].
+  pose proof (Hs s (p ++ [n]) [n]) as H1. destruct (rm s (p ++ [n]) [n]) as [s1 r1]. simpl in H1.
+  destruct r1; [eapply shrinks_trans; [exact H1 | apply IH] | exact H1].
+Qed.
+
+Lemma clean_dir_with_shrinks : forall c rm, shrink_spec rm -> forall s p, shrinks s (fst (clean_dir_with excl_name c rm s p)).
+Proof.
+  intros c rm Hs s p. unfold clean_dir_with. destruct c; [apply shrinks_refl|].
+  destruct (negb (exists_ s p)); [apply shrinks_refl|]. destruct (is_empty s p); [apply shrinks_refl|].
+  destruct (ls excl_name s p); [now apply fold_rm_shrinks | apply shrinks_refl].
+Qed.
+
+Lemma remove_shrinks : forall lf c fuel, shrink_spec (remove excl_name excl_path lf c fuel).
+Proof.
+  intros lf c. induction fuel as [|f IH]; intros s p t; simpl; [apply shrinks_refl|].
+  destruct (lf && is_link (lstat s p)).
+  - destruct c; [apply shrinks_refl|]. destruct (excl_path t); [apply shrinks_refl | apply os_remove_shrinks].
+  - destruct (negb (exists_ s p)); [apply shrinks_refl|].
+    destruct (is_dir s p) as [isDir|]; [|apply shrinks_refl].
+    set (x := if isDir && negb (is_empty s p) then clean_dir_with excl_name c (remove excl_name excl_path lf c f) s p else (s, Ok)).
+    assert (Hx : shrinks s (fst x)) by (unfold x; destruct (isDir && negb (is_empty s p)); [now apply clean_dir_with_shrinks | apply shrinks_refl]).
+    destruct x as [s1 r1]. simpl in Hx. destruct r1; [|exact Hx].
+    destruct (isDir && negb (is_empty s1 p)); [exact Hx|]. destruct c; [exact Hx|].
+    destruct (excl_path t); [exact Hx|]. eapply shrinks_trans; [exact Hx | apply os_remove_shrinks].
+Qed.
+
+Definition nofuel_spec (f : nat) (rm : fsys -> path -> path -> fsys * res) : Prop :=
+  forall s p t, dirs_above s p -> size_below s p < f -> snd (rm s p t) <> Err EFuel.
+
+Lemma fold_rm_nofuel : forall c rm p f, rm_spec excl_name excl_path rm -> shrink_spec rm -> nofuel_spec f rm ->
+  forall ns s, dirs_above s p -> lookup s p = Some EDir -> (forall n, size_below s (p ++ [n]) < f) ->
+  snd (fold_rm c rm s p ns) <> Err EFuel.
+Proof.
+  intros c rm p f Hrm Hs Hnf. induction ns as [|n r IH]; intros s Hd Hl Hsz; simpl; [discriminate|].
+  destruct c; [discriminate|].
+  destruct (child_step excl_name excl_path rm s p n Hrm Hd Hl) as [Hd1 [Hl1 _]].
+  pose proof (Hs s (p ++ [n]) [n]) as Hsh.
+  pose proof (Hnf s (p ++ [n]) [n] (dirs_above_child s p n Hd Hl) (Hsz n)) as Hn.
+  destruct (rm s (p ++ [n]) [n]) as [s1 r1]. simpl in *.
+  destruct r1 as [|e]; [|intro H; inversion H; subst; now apply Hn].
+  apply IH; auto. intros m. specialize (Hsh (p ++ [m])). specialize (Hsz m). lia.
+Qed.
+
+Lemma clean_dir_with_nofuel : forall c rm f, rm_spec excl_name excl_path rm -> shrink_spec rm -> nofuel_spec f rm ->
+  forall s p, dirs_above s p -> not_link (lookup s p) -> (forall n, size_below s (p ++ [n]) < f) ->
+  snd (clean_dir_with excl_name c rm s p) <> Err EFuel.
+Proof.
+  intros c rm f Hrm Hs Hnf s p Hd Hn Hsz. unfold clean_dir_with. destruct c; [discriminate|].
+  destruct (negb (exists_ s p)); [discriminate|]. destruct (is_empty s p); [discriminate|].
+  destruct (ls excl_name s p) as [ns|] eqn:E; [|discriminate].
+  eapply fold_rm_nofuel; eauto. eapply ls_some_dir; eauto.
+Qed.
+
+Lemma os_remove_nofuel : forall s p, snd (os_remove s p) <> Err EFuel.
+Proof.
+  intros s p. unfold os_remove. destruct (resolve link_fuel s false p) as [q|]; [|discriminate].
+  destruct (lookup s q) as [[cid| |t]|]; simpl; try discriminate. destruct (children s q); discriminate.
+Qed.
+
+Lemma remove_nofuel : forall c fuel, nofuel_spec fuel (remove excl_name excl_path true c fuel).
+Proof.
+  intros c. induction fuel as [|f IH]; intros s p t Hd Hsz; [lia|]. simpl.
+  rewrite lstat_phys by assumption.
+  destruct (is_link (lookup s p)) eqn:El.
+  - simpl. destruct c; [discriminate|]. destruct (excl_path t); [discriminate | apply os_remove_nofuel].
+  - assert (Hn : not_link (lookup s p)) by (intros t0 Ht; rewrite Ht in El; discriminate).
+    simpl. destruct (negb (exists_ s p)); [discriminate|].
+    destruct (is_dir s p) as [isDir|] eqn:Ed; [|discriminate].
+    set (x := if isDir && negb (is_empty s p) then clean_dir_with excl_name c (remove excl_name excl_path true c f) s p else (s, Ok)).
+    assert (Hx : snd x <> Err EFuel).
+    { unfold x. destruct isDir; simpl; [|discriminate]. destruct (negb (is_empty s p)); [|discriminate].
+      assert (Hl : lookup s p = Some EDir).
+      { unfold is_dir in Ed. rewrite stat_phys in Ed by assumption. destruct (lookup s p) as [[?| |?]|]; try discriminate; reflexivity. }
+      apply (clean_dir_with_nofuel c _ f); auto.
+      - apply remove_changes_only.
+      - apply remove_shrinks.
+      - intros n. assert (lookup s p <> None) by congruence. pose proof (size_child_lt s p n H). lia. }
+    destruct x as [s1 r1]. simpl in Hx. destruct r1 as [|e]; [|intro H; inversion H; subst; now apply Hx].
+    destruct (isDir && negb (is_empty s1 p)); [discriminate|]. destruct c; [discriminate|].
+    destruct (excl_path t); [discriminate | apply os_remove_nofuel].
+Qed.
+
+End Fuel.
+
+(* ---------- without exclusions, with a live context and enough fuel the removal SUCCEEDS ---------- *)
+
+Lemma os_remove_ok : forall s p, dirs_above s p -> lookup s p <> None ->
+  (lookup s p <> Some EDir \/ children s p = []) -> snd (os_remove s p) = Ok.
+Proof.
+  intros s p Hd Hl H. destruct (os_remove_cases s p Hd) as [E|[E|[E _]]]; rewrite E; simpl; try reflexivity; exfalso.
+  - unfold os_remove in E. rewrite resolve_nofollow_phys in E by assumption.
+    destruct p as [|c r].
+    + destruct (lookup s []) as [[?| |?]|]; try congruence. destruct (children s []); discriminate.
+    + destruct (lookup s (c :: r)) as [[?| |?]|] eqn:E2; try congruence; rewrite ?E2 in E; try discriminate.
+      destruct (children s (c :: r)); discriminate.
+  - unfold os_remove in E. rewrite resolve_nofollow_phys in E by assumption.
+    destruct p as [|c r].
+    + destruct (lookup s []) as [[?| |?]|] eqn:E2; try discriminate.
+      destruct H as [H|H]; [congruence|]. rewrite H in E. discriminate.
+    + destruct (lookup s (c :: r)) as [[?| |?]|] eqn:E2; rewrite ?E2 in E; try discriminate.
+      destruct H as [H|H]; [congruence|]. rewrite H in E. discriminate.
+Qed.
+
+Section Success.
+Variable excl_name : name -> bool.
+Variable excl_path : path -> bool.
+Hypothesis Hen : forall n, excl_name n = false.
+Hypothesis Hep : forall q, excl_path q = false.
+
+Definition ok_spec (f : nat) (rm : fsys -> path -> path -> fsys * res) : Prop :=
+  forall s p t, wf s -> dirs_above s p -> size_below s p < f -> snd (rm s p t) = Ok.
+
+Lemma fold_rm_ok : forall rm p f, rm_spec excl_name excl_path rm -> wf_spec rm -> shrink_spec rm -> ok_spec f rm ->
+  forall ns s, wf s -> dirs_above s p -> lookup s p = Some EDir -> (forall n, size_below s (p ++ [n]) < f) ->
+  snd (fold_rm false rm s p ns) = Ok.
+Proof.
+  intros rm p f Hrm Hw Hs Hok. induction ns as [|n r IH]; intros s Hwf Hd Hl Hsz; simpl; [reflexivity|].
+  destruct (child_step excl_name excl_path rm s p n Hrm Hd Hl) as [Hd1 [Hl1 _]].
+  pose proof (Hs s (p ++ [n]) [n]) as Hsh.
+  pose proof (Hw s (p ++ [n]) [n] Hwf (dirs_above_child s p n Hd Hl)) as Hwf1.
+  pose proof (Hok s (p ++ [n]) [n] Hwf (dirs_above_child s p n Hd Hl) (Hsz n)) as Hr.
+  destruct (rm s (p ++ [n]) [n]) as [s1 r1]. simpl in *. subst r1.
+  apply IH; auto. intros m. specialize (Hsh (p ++ [m])). specialize (Hsz m). lia.
+Qed.
+
+Lemma clean_dir_with_ok : forall rm f, rm_spec excl_name excl_path rm -> wf_spec rm -> shrink_spec rm -> ok_spec f rm ->
+  forall s p, wf s -> dirs_above s p -> lookup s p = Some EDir -> (forall n, size_below s (p ++ [n]) < f) ->
+  snd (clean_dir_with excl_name false rm s p) = Ok.
+Proof.
+  intros rm f Hrm Hw Hs Hok s p Hwf Hd Hl Hsz. unfold clean_dir_with.
+  destruct (negb (exists_ s p)); [reflexivity|]. destruct (is_empty s p); [reflexivity|].
+  unfold ls, is_dir. rewrite stat_phys by (auto; intros t; congruence). rewrite Hl.
+  rewrite readdir_phys by assumption. eapply fold_rm_ok; eauto.
+Qed.
+
+Lemma remove_ok_c : forall c fuel, c = false -> ok_spec fuel (remove excl_name excl_path true c fuel).
+Proof.
+  intros c. induction fuel as [|f IH]; intros Hc s p t Hwf Hd Hsz; [lia|].
+  specialize (IH Hc).
+  remember (remove excl_name excl_path true c (S f) s p t) as R eqn:HR. simpl in HR.
+  rewrite lstat_phys in HR by assumption.
+  destruct (is_link (lookup s p)) eqn:El.
+  - simpl in HR. subst c. rewrite Hep in HR. subst R. apply os_remove_ok; [exact Hd | |].
+    + destruct (lookup s p); [discriminate | discriminate El].
+    + left. destruct (lookup s p) as [[?| |?]|]; try discriminate El. discriminate.
+  - assert (Hn : not_link (lookup s p)) by (intros t0 Ht; rewrite Ht in El; discriminate).
+    simpl in HR. unfold exists_, is_dir in HR. rewrite stat_phys in HR by assumption.
+    destruct (lookup s p) as [[cid| |t0]|] eqn:Elk.
+    + simpl in HR. subst c. rewrite Hep in HR. subst R. apply os_remove_ok; [exact Hd | congruence | left; congruence].
+    + simpl in HR. subst c.
+      pose proof (remove_changes_only excl_name excl_path false f) as Hrm.
+      pose proof (remove_wf excl_name excl_path false f) as Hw.
+      pose proof (remove_shrinks excl_name excl_path true false f) as Hsh.
+      pose proof (remove_complete_l excl_name excl_path Hen Hep false f) as Hcm.
+      assert (Hn' : not_link (lookup s p)) by (rewrite Elk; exact Hn).
+      assert (Hch : forall n, size_below s (p ++ [n]) < f).
+      { intros n. assert (H : lookup s p <> None) by congruence. pose proof (size_child_lt s p n H). lia. }
+      destruct (negb (is_empty s p)) eqn:Eemp.
+      * pose proof (clean_dir_with_ok _ f Hrm Hw Hsh IH s p Hwf Hd Elk Hch) as Hcok.
+        pose proof (clean_dir_with_complete excl_name excl_path Hen false _ Hrm Hw Hcm s p Hwf Hd Elk Hcok) as Hcc.
+        pose proof (clean_dir_with_changes_only excl_name excl_path false _ t Hrm s p Hd Hn') as Hchg.
+        pose proof (clean_dir_with_keeps_root excl_name excl_path false _ Hrm s p Hd Elk) as Hl1.
+        destruct (clean_dir_with excl_name false (remove excl_name excl_path true false f) s p) as [s1 r1]. simpl in *. subst r1.
+        assert (Hd1 : dirs_above s1 p) by (eapply dirs_above_preserved; [apply touchable_under | exact Hchg | exact Hd]).
+        rewrite (is_empty_dir_phys s1 p Hd1 Hl1), Hcc in HR. simpl in HR.
+        rewrite Hep in HR. subst R. apply os_remove_ok; [exact Hd1 | congruence | now right].
+      * rewrite Eemp in HR. simpl in HR. rewrite Hep in HR. subst R.
+        apply os_remove_ok; [exact Hd | congruence | right].
+        apply negb_false_iff in Eemp. rewrite is_empty_dir_phys in Eemp by assumption.
+        destruct (children s p); [reflexivity | discriminate].
+    + exfalso. now apply (Hn t0).
+    + simpl in HR. now subst R.
+Qed.
+
+Lemma remove_ok : forall fuel, ok_spec fuel (remove excl_name excl_path true false fuel).
+Proof. intros fuel. now apply remove_ok_c. Qed.
+
+End Success.
+
+(* ---------- garbage collection: fuel ---------- *)
+
+Lemma remove0_shrinks : forall lf c fuel s p, shrinks s (fst (remove0 lf c fuel s p)).
+Proof. intros. apply remove_shrinks. Qed.
+
+Lemma gc_file_shrinks : forall lf c old fuel s p, shrinks s (fst (gc_file lf c old fuel s p)).
+Proof.
+  intros lf c old fuel s p. unfold gc_file. destruct c; [apply shrinks_refl|].
+  destruct (resolve link_fuel s true p) as [q|]; [|apply shrinks_refl].
+  destruct (old q); [apply remove0_shrinks | apply shrinks_refl].
+Qed.
+
+Lemma gc_children_shrinks : forall g p, (forall s q, shrinks s (fst (g s q))) ->
+  forall ns s, shrinks s (fst (gc_children g s p ns)).
+Proof.
+  intros g p Hg. induction ns as [|n r IH]; intros s; simpl; [apply shrinks_refl|].
+  pose proof (Hg s (p ++ [n])) as H1. destruct (g s (p ++ [n])) as [s1 r1]. simpl in H1.
+  assert (Hk : shrinks s (fst (gc_children g s1 p r))) by (eapply shrinks_trans; [exact H1 | apply IH]).
+  destruct r1 as [|[]]; try exact Hk. exact H1.
+Qed.
+
+Lemma gc_shrinks : forall lf c old ord fuel s p dp, shrinks s (fst (gc lf c old ord fuel s p dp)).
+Proof.
+  intros lf c old ord. induction fuel as [|f IH]; intros s p dp; simpl; [apply shrinks_refl|].
+  destruct c; [apply shrinks_refl|].
+  destruct (negb (exists_ s p)); [apply shrinks_refl|].
+  destruct (lf && dp && is_link (lstat s p)); [apply gc_file_shrinks|].
+  destruct (is_dir s p) as [[|]|]; try apply gc_file_shrinks.
+  destruct (ls (fun _ => false) s p) as [ns|]; [|apply shrinks_refl].
+  pose proof (gc_children_shrinks (fun a q => gc lf false old ord f a q true) p (fun s0 q => IH s0 q true) (ord p ns) s) as Hf.
+  destruct (gc_children (fun a q => gc lf false old ord f a q true) s p (ord p ns)) as [s1 b]. simpl in Hf.
+  destruct b; [exact Hf|].
+  destruct (is_empty s1 p && dp); [|exact Hf].
+  eapply shrinks_trans; [exact Hf | apply remove0_shrinks].
+Qed.
+
+Lemma remove0_nofuel : forall c fuel s p, dirs_above s p -> size_below s p < fuel -> snd (remove0 true c fuel s p) <> Err EFuel.
+Proof. intros c fuel s p Hd Hsz. unfold remove0. now apply remove_nofuel. Qed.
+
+Lemma gc_file_nofuel : forall c old fuel s p, dirs_above s p -> size_below s p < fuel ->
+  snd (gc_file true c old fuel s p) <> Err EFuel.
+Proof.
+  intros c old fuel s p Hd Hsz. unfold gc_file. destruct c; [discriminate|].
+  destruct (resolve link_fuel s true p) as [q|]; [|discriminate].
+  destruct (old q); [now apply remove0_nofuel | discriminate].
+Qed.
+
+Lemma gc_children_nofuel : forall g p f, gc_spec g -> (forall s q, shrinks s (fst (g s q))) ->
+  (forall s q, dirs_above s q -> size_below s q + 1 < f -> snd (g s q) <> Err EFuel) ->
+  forall ns s, dirs_above s p -> lookup s p = Some EDir -> (forall n, size_below s (p ++ [n]) + 1 < f) ->
+  snd (gc_children g s p ns) = false.
+Proof.
+  intros g p f Hg Hs Hnf. induction ns as [|n r IH]; intros s Hd Hl Hsz; simpl; [reflexivity|].
+  destruct (gc_child_step g s p n Hg Hd Hl) as [_ [Hd1 Hl1]].
+  pose proof (Hs s (p ++ [n])) as Hsh.
+  pose proof (Hnf s (p ++ [n]) (dirs_above_child s p n Hd Hl) (Hsz n)) as Hn.
+  destruct (g s (p ++ [n])) as [s1 r1]. simpl in *.
+  assert (Hk : snd (gc_children g s1 p r) = false).
+  { apply IH; auto. intros m. specialize (Hsh (p ++ [m])). specialize (Hsz m). lia. }
+  destruct r1 as [|[]]; try exact Hk. congruence.
+Qed.
+
+Lemma gc_nofuel : forall c old ord fuel s p dp, dirs_above s p -> (dp = false -> not_link (lookup s p)) ->
+  size_below s p + 1 < fuel -> snd (gc true c old ord fuel s p dp) <> Err EFuel.
+Proof.
+  intros c old ord. induction fuel as [|f IH]; intros s p dp Hd Hroot Hsz; [lia|]. simpl.
+  destruct c; [discriminate|].
+  destruct (negb (exists_ s p)); [discriminate|].
+  rewrite lstat_phys by assumption.
+  destruct (dp && is_link (lookup s p)) eqn:El; [apply gc_file_nofuel; [exact Hd | lia]|].
+  assert (Hn : not_link (lookup s p)).
+  { destruct dp; [|now apply Hroot]. simpl in El. intros t Ht. rewrite Ht in El. discriminate. }
+  destruct (is_dir s p) as [[|]|] eqn:Ed; try (apply gc_file_nofuel; [exact Hd | lia]).
+  destruct (ls (fun _ => false) s p) as [ns|] eqn:E; [|discriminate].
+  assert (Hl : lookup s p = Some EDir) by (eapply ls_some_dir; eauto).
+  set (g := fun a q => gc true false old ord f a q true).
+  assert (Hg : gc_spec g) by (intros s0 p0 Hd0; apply gc_changes_only; [exact Hd0 | discriminate]).
+  assert (Hch : forall n, size_below s (p ++ [n]) + 1 < f).
+  { intros n. assert (H : lookup s p <> None) by congruence. pose proof (size_child_lt s p n H). lia. }
+  pose proof (gc_children_nofuel g p f Hg (fun s0 q => gc_shrinks true false old ord f s0 q true)
+                (fun s0 q Hd0 Hs0 => IH s0 q true Hd0 (fun H => ltac:(discriminate H)) Hs0) (ord p ns) s Hd Hl Hch) as Hb.
+  pose proof (gc_children_changes_only g p Hg (ord p ns) s Hd Hl) as Hf.
+  pose proof (gc_children_shrinks g p (fun s0 q => gc_shrinks true false old ord f s0 q true) (ord p ns) s) as Hsh.
+  destruct (gc_children g s p (ord p ns)) as [s1 b]. simpl in *. subst b.
+  destruct (is_empty s1 p && dp); [|discriminate].
+  apply remove0_nofuel.
+  - eapply dirs_above_preserved; [intros q Hq; exact Hq | exact Hf | exact Hd].
+  - specialize (Hsh p). lia.
+Qed.
+
 (* ---------- statements used by Props.v ---------- *)
 
 Lemma remove_confined_l : forall en ep c fuel s p, dirs_above s p ->
-  forall q, ~ under p q -> lookup (fst (remove en ep true c fuel s p)) q = lookup s q.
+  forall q, ~ under p q -> lookup (fst (remove_top en ep true c fuel s p)) q = lookup s q.
 Proof.
-  intros en ep c fuel s p Hd q Hq. apply (remove_changes_only en ep c fuel s p Hd). intros [Hu _]. now apply Hq.
+  intros en ep c fuel s p Hd q Hq. apply (remove_changes_only en ep c fuel s p p Hd). intros Ht. apply Hq. eapply touchable_under; eauto.
 Qed.
 
 Lemma clean_dir_confined_l : forall en ep c fuel s p, dirs_above s p -> not_link (lookup s p) ->
   forall q, ~ under p q -> lookup (fst (clean_dir en ep true c fuel s p)) q = lookup s q.
 Proof.
   intros en ep c fuel s p Hd Hn q Hq. unfold clean_dir.
-  apply (clean_dir_with_changes_only en ep c _ (remove_changes_only en ep c fuel) s p Hd Hn). intros [Hu _]. now apply Hq.
+  apply (clean_dir_with_changes_only en ep c _ p (remove_changes_only en ep c fuel) s p Hd Hn). intros Ht. apply Hq. eapply touchable_under; eauto.
 Qed.
 
-Lemma gc_confined_l : forall c old fuel s root, dirs_above s root -> not_link (lookup s root) ->
-  forall q, ~ under root q -> lookup (fst (garbage_collect true c old fuel s root)) q = lookup s q.
+Lemma gc_confined_l : forall c old ord fuel s root, dirs_above s root -> not_link (lookup s root) ->
+  forall q, ~ under root q -> lookup (fst (garbage_collect true c old ord fuel s root)) q = lookup s q.
 Proof.
-  intros c old fuel s root Hd Hn q Hq. unfold garbage_collect. now apply (gc_changes_only c old fuel s root false Hd (fun _ => Hn)).
+  intros c old ord fuel s root Hd Hn q Hq. unfold garbage_collect. now apply (gc_changes_only c old ord fuel s root false Hd (fun _ => Hn)).
+Qed.
+
+(* what the exclusion patterns protect in a call on p: p itself when the caller's path is excluded; below p, every entry
+   whose own name is excluded or that lies below a directory whose name is excluded *)
+Definition protected_below (en : name -> bool) (ep : path -> bool) (p q : path) : Prop :=
+  exists r, q = p ++ r /\ r <> [] /\ (ep [last r []] = true \/ exists n, In n r /\ en n = true).
+Definition protected (en : name -> bool) (ep : path -> bool) (p q : path) : Prop :=
+  (q = p /\ ep p = true) \/ protected_below en ep p q.
+
+Lemma protected_below_not_touchable : forall en ep p t q, protected_below en ep p q -> ~ touchable en ep p t q.
+Proof.
+  intros en ep p t q [r [-> [Hr H]]] [[Heq _]|[r' [_ [Heq [Hf He]]]]].
+  - apply Hr. symmetry in Heq. now apply app_inv_head_nil in Heq.
+  - apply app_inv_head in Heq. subst r'. destruct H as [H|[n [Hin Hn]]]; [congruence|].
+    rewrite Forall_forall in Hf. specialize (Hf n Hin). congruence.
+Qed.
+
+Lemma protected_not_touchable : forall en ep p q, protected en ep p q -> ~ touchable en ep p p q.
+Proof.
+  intros en ep p q [[-> He]|H]; [|now apply protected_below_not_touchable].
+  intros [[_ H]|[r [Hr [Heq _]]]]; [congruence|]. apply Hr. now apply app_inv_head_nil in Heq.
 Qed.
 
 Definition survives_with_ancestors (s s' : fsys) (q : path) : Prop :=
   lookup s' q = lookup s q /\ forall a b, q = a ++ b -> b <> [] -> lookup s' a = Some EDir.
 
-Lemma keeps_excluded_gen : forall ep (s s' : fsys) p q, wf s' -> changes_only (touchable ep p) s s' ->
-  ep q = true -> lookup s q <> None -> survives_with_ancestors s s' q.
+Lemma keeps_gen : forall (P : path -> Prop) (s s' : fsys) q, wf s' -> changes_only P s s' ->
+  ~ P q -> lookup s q <> None -> survives_with_ancestors s s' q.
 Proof.
-  intros ep s s' p q Hwf Hc He Hex.
-  assert (Hq : lookup s' q = lookup s q) by (apply Hc; intros [_ H]; congruence).
-  split; [exact Hq|]. intros a b -> Hb. apply (wf_prefix_dir s' Hwf b a Hb). congruence.
+  intros P s s' q Hwf Hc Hq Hex.
+  assert (E : lookup s' q = lookup s q) by now apply Hc.
+  split; [exact E|]. intros a b -> Hb. apply (wf_prefix_dir s' Hwf b a Hb). congruence.
 Qed.
 
 Lemma remove_keeps_excluded_l : forall en ep c fuel s p, wf s -> dirs_above s p ->
-  forall q, ep q = true -> lookup s q <> None -> survives_with_ancestors s (fst (remove en ep true c fuel s p)) q.
+  forall q, protected en ep p q -> lookup s q <> None -> survives_with_ancestors s (fst (remove_top en ep true c fuel s p)) q.
 Proof.
-  intros en ep c fuel s p Hwf Hd q He Hex. eapply keeps_excluded_gen; eauto.
-  - exact (remove_wf en ep c fuel s p Hwf Hd).
-  - exact (remove_changes_only en ep c fuel s p Hd).
+  intros en ep c fuel s p Hwf Hd q Hp Hex. eapply keeps_gen; eauto.
+  - exact (remove_wf en ep c fuel s p p Hwf Hd).
+  - exact (remove_changes_only en ep c fuel s p p Hd).
+  - now apply protected_not_touchable.
 Qed.
 
 Lemma clean_dir_keeps_excluded_l : forall en ep c fuel s p, wf s -> dirs_above s p -> not_link (lookup s p) ->
-  forall q, ep q = true -> lookup s q <> None -> survives_with_ancestors s (fst (clean_dir en ep true c fuel s p)) q.
+  forall q, protected_below en ep p q -> lookup s q <> None -> survives_with_ancestors s (fst (clean_dir en ep true c fuel s p)) q.
 Proof.
-  intros en ep c fuel s p Hwf Hd Hn q He Hex. unfold clean_dir. eapply keeps_excluded_gen; eauto.
+  intros en ep c fuel s p Hwf Hd Hn q Hp Hex. unfold clean_dir. eapply keeps_gen; eauto.
   - exact (clean_dir_with_wf en ep c _ (remove_changes_only en ep c fuel) (remove_wf en ep c fuel) s p Hwf Hd Hn).
-  - exact (clean_dir_with_changes_only en ep c _ (remove_changes_only en ep c fuel) s p Hd Hn).
+  - exact (clean_dir_with_changes_only en ep c _ p (remove_changes_only en ep c fuel) s p Hd Hn).
+  - now apply protected_below_not_touchable.
 Qed.
 
 Lemma clean_dir_complete_l : forall en ep c fuel s p,
@@ -699,6 +1088,56 @@ Proof.
   now apply children_nil.
 Qed.
 
+Lemma size_child_le : forall s p n, size_below s (p ++ [n]) <= size_below s p.
+Proof.
+  intros s p n. unfold size_below. apply filter_le. intros [k e] H. simpl in *.
+  apply is_prefix_spec. apply is_prefix_spec in H. eapply under_app; eauto.
+Qed.
+
+Lemma remove_terminates_l : forall en ep c fuel s p, dirs_above s p -> size_below s p < fuel ->
+  snd (remove_top en ep true c fuel s p) <> Err EFuel.
+Proof. intros en ep c fuel s p Hd Hsz. unfold remove_top. now apply remove_nofuel. Qed.
+
+Lemma clean_dir_terminates_l : forall en ep c fuel s p, dirs_above s p -> not_link (lookup s p) -> size_below s p < fuel ->
+  snd (clean_dir en ep true c fuel s p) <> Err EFuel.
+Proof.
+  intros en ep c fuel s p Hd Hn Hsz. unfold clean_dir. apply (clean_dir_with_nofuel en ep c _ fuel); auto.
+  - apply remove_changes_only.
+  - apply remove_shrinks.
+  - apply remove_nofuel.
+  - intros n. pose proof (size_child_le s p n). lia.
+Qed.
+
+Lemma gc_terminates_l : forall c old ord fuel s root, dirs_above s root -> not_link (lookup s root) ->
+  size_below s root + 1 < fuel -> snd (garbage_collect true c old ord fuel s root) <> Err EFuel.
+Proof. intros c old ord fuel s root Hd Hn Hsz. unfold garbage_collect. now apply gc_nofuel. Qed.
+
+Lemma remove_succeeds_l : forall en ep fuel s p,
+  (forall n, en n = false) -> (forall q, ep q = false) -> wf s -> dirs_above s p -> size_below s p < fuel ->
+  snd (remove_top en ep true false fuel s p) = Ok /\ forall q, under p q -> lookup (fst (remove_top en ep true false fuel s p)) q = None.
+Proof.
+  intros en ep fuel s p Hen Hep Hwf Hd Hsz. unfold remove_top.
+  pose proof (remove_ok en ep Hen Hep fuel s p p Hwf Hd Hsz) as Hok.
+  split; [exact Hok|]. exact (remove_complete_l en ep Hen Hep false fuel s p p Hwf Hd Hok).
+Qed.
+
+Lemma clean_dir_succeeds_l : forall en ep fuel s p,
+  (forall n, en n = false) -> (forall q, ep q = false) -> wf s -> dirs_above s p -> lookup s p = Some EDir -> size_below s p < fuel ->
+  snd (clean_dir en ep true false fuel s p) = Ok /\
+  lookup (fst (clean_dir en ep true false fuel s p)) p = Some EDir /\
+  forall q, under p q -> q <> p -> lookup (fst (clean_dir en ep true false fuel s p)) q = None.
+Proof.
+  intros en ep fuel s p Hen Hep Hwf Hd Hl Hsz.
+  assert (Hok : snd (clean_dir en ep true false fuel s p) = Ok).
+  { unfold clean_dir. apply (clean_dir_with_ok en ep _ fuel); auto.
+    - apply remove_changes_only.
+    - apply remove_wf.
+    - apply remove_shrinks.
+    - now apply remove_ok.
+    - intros n. pose proof (size_child_le s p n). lia. }
+  split; [exact Hok|]. now apply clean_dir_complete_l.
+Qed.
+
 (* the code before the fix: Stat-based tests follow the link tree/sub/lnk -> outside; the dangling link is "not there" *)
 Definition nm (z : Z) : name := [z].
 Definition witness : fsys :=
@@ -714,11 +1153,29 @@ Proof.
 Qed.
 
 Lemma without_lstat_outside_deleted :
-  snd (remove noex_n noex_p false false 10 witness [nm 3]) = Ok /\
-  lookup (fst (remove noex_n noex_p false false 10 witness [nm 3])) [nm 1; nm 2] = None /\
+  snd (remove_top noex_n noex_p false false 10 witness [nm 3]) = Ok /\
+  lookup (fst (remove_top noex_n noex_p false false 10 witness [nm 3])) [nm 1; nm 2] = None /\
   lookup witness [nm 1; nm 2] = Some (EFile 7) /\
-  lookup (fst (remove noex_n noex_p false false 10 witness [nm 3])) [nm 3] = Some EDir.
+  lookup (fst (remove_top noex_n noex_p false false 10 witness [nm 3])) [nm 3] = Some EDir.
 Proof. vm_compute. repeat split; reflexivity. Qed.
 
 Lemma witness_not_under : ~ under [nm 3] [nm 1; nm 2].
 Proof. intros [r H]. simpl in H. inversion H. Qed.
+
+(* a link to an ancestor: the repaired code needs fuel entries+1; the old code walks tree/a/up/a/up/... until the OS
+   gives up on the 40th link, and the fuel that suffices for every tree after the fix runs out *)
+Definition loop_witness : fsys :=
+  [ ([], EDir); ([nm 3], EDir); ([nm 3; nm 4], EDir); ([nm 3; nm 4; nm 5], ELink [nm 3]) ].
+
+Lemma loop_witness_dirs_above : dirs_above loop_witness [nm 3].
+Proof.
+  intros a b H Hb. destruct a as [|x a']; [reflexivity|].
+  exfalso. destruct a'; destruct b; simpl in H; try discriminate; congruence.
+Qed.
+
+Lemma loop_witness_facts :
+  size_below loop_witness [nm 3] = 3%nat /\
+  snd (remove_top noex_n noex_p true false 4 loop_witness [nm 3]) = Ok /\
+  snd (remove_top noex_n noex_p false false 4 loop_witness [nm 3]) = Err EFuel /\
+  snd (remove_top noex_n noex_p false false 30 loop_witness [nm 3]) = Err EFuel.
+Proof. vm_compute. repeat split; reflexivity. Qed.
